@@ -42,6 +42,17 @@ Three readings that callers rely on, with their source:
   read letter by letter (step 2 resolves the still-encoded text, step 8 decodes) would turn them into Uri-Path
   values "." / "..", which RFC 7252 5.10.1 forbids, so that literal reading has no permitted outcome; decompose()
   gives the normalised reading in .path, says so in .escaped_dots, and callers decide what else they tolerate.
+* Zone identifiers. There are two textual forms and they are not the same text. RFC 4007 section 11.2 (what getaddrinfo,
+  if_nametoindex and every host/port string outside a URI use): "<address>%<zone_id>", everything behind the first "%"
+  being the zone name verbatim. RFC 6874 section 2 (URIs only): IPv6addrz = IPv6address "%25" ZoneID with
+  ZoneID = 1*( unreserved / pct-encoded ): the "%25" is the percent-encoded "%" delimiter and is not part of the name,
+  and the ZoneID is percent-decoded like any other URI data (names with other than unreserved characters "MUST be
+  represented using percent encoding"; RFC 3986 2.3 / 6.2.2.2 make "%25eth0", "%25%65th0" and "%25eth%30" one and the
+  same literal). So the URI host "[fe80::1%25lo]" is address fe80::1 in zone "lo" -- never zone "25lo", which is
+  written "[fe80::1%2525lo]" --, and the destination a consumer derives from it is "fe80::1%lo" in RFC 4007 terms.
+  A bare "[fe80::1%lo]" in URI text is not a URI (the "%" starts no escape); a consumer that accepts it all the same
+  can only mean zone "lo" by it. parse_host() / host_text() speak the URI form, parse_scoped_address() /
+  scoped_host_text() the RFC 4007 form (split_hostinfo(uri_form=False) for a whole host[:port] string).
 """
 
 from collections import namedtuple
@@ -305,6 +316,46 @@ def bracketed_non_literal(value):
     "]" without being an IP-literal: "[x]", "[::1]/a?b=]", "[::1]@[::2]", "[]", "[::1%eth0]" (a zone id needs "%25" in
     URI text). Its brackets are data and can only be written percent-encoded in a URI."""
     return value is not None and len(value) >= 2 and value.startswith("[") and value.endswith("]") and not is_ip_literal_text(value)
+
+
+def parse_scoped_address(text):
+    """RFC 4007 11.2 text of an IPv6 address, "<address>" or "<address>%<zone_id>" (no brackets; the zone is everything
+    behind the first "%", verbatim) -> (128 bit int, zone | None); raises NotAUri("host")."""
+    addr, sep, zone = text.partition("%")
+    v = parse_ipv6(addr)
+    if v is None or (sep and not zone):
+        raise NotAUri("host")
+    return v, (zone if sep else None)
+
+
+def scoped_host_text(value, zone=None, brackets=True):
+    """The RFC 4007 form (bare "%" before the verbatim zone name), in brackets as it stands in a host[:port] string."""
+    t = format_ipv6(value) + ("" if zone is None else "%" + zone)
+    return "[" + t + "]" if brackets else t
+
+
+def zone_in_hostport_string(zone):
+    """Can a bracketed host[:port] string in RFC 4007 form carry this zone name so that it can be split again? Not with a
+    bracket, a "%" (the first one delimits), or characters that no host[:port] / URI text can hold raw."""
+    return zone != "" and not any(c in "%[]" or c in NONURI_CHARS for c in zone)
+
+
+def zone_is_plain(zone):
+    """A zone name of unreserved characters only: every operating system's interface names and indices."""
+    return zone != "" and all(c in UNRESERVED for c in zone)
+
+
+def bare_zone_literal(host):
+    """"[<IPv6address>%<zone>]" with the zone written behind a bare "%" (not URI syntax: RFC 6874 wants "%25") where
+    the text can only be meant one way: the zone has unreserved characters only and does not begin with "25".
+    -> (value, zone) or None."""
+    if not (host.startswith("[") and host.endswith("]")):
+        return None
+    addr, sep, zone = host[1:-1].partition("%")
+    v = parse_ipv6(addr)
+    if v is None or not sep or not zone_is_plain(zone) or zone.startswith("25"):
+        return None
+    return v, zone
 
 
 # ---------------------------------------------------------------- RFC 3986 parser
@@ -756,6 +807,25 @@ def selftest():
     d = decompose("coap://[FE80::0001%25eth0]:1/")
     assert d.host == Host("ipv6", "[FE80::0001%25eth0]", 0xFE80 << 112 | 1, "eth0") and d.uri_host is None
     assert decompose("coap://[v1.fe]/").host.kind == "ipvfuture"
+    # RFC 6874: "%25" is the delimiter, the ZoneID is percent-decoded; RFC 4007 11.2: bare "%", verbatim
+    assert decompose("coap://[fe80::1%25lo]/x").host.zone == "lo" and decompose("coap://[fe80::1%2525lo]/x").host.zone == "25lo"
+    assert decompose("coap://[fe80::1%25eth0]/").host == decompose("coap://[fe80::1%25%65th0]/").host._replace(text="[fe80::1%25eth0]") == decompose("coap://[fe80::1%25eth%30]/").host._replace(text="[fe80::1%25eth0]")
+    assert decompose("coap://[fe80::1%25eth%2D0]/").host.zone == "eth-0" and decompose("coap://[fe80::1%25a%2Fb%25%C3%A4]/").host.zone == "a/b%\u00e4"
+    assert classify("coap://[fe80::1%25]/")[0] == "notauri" and classify("coap://[fe80::1%lo]/")[0] == "notauri" and classify("coap://[fe80::1%25a%2]/")[0] == "notauri" and classify("coap://[fe80::1%25a%FF]/") == ("reject", "non-utf8")
+    assert host_text("ipv6", 0xFE80 << 112 | 1, "25lo") == "[fe80::1%2525lo]" and host_text("ipv6", 1, "a/b") == "[::1%25a%2Fb]"
+    assert parse_scoped_address("fe80::1%lo") == (0xFE80 << 112 | 1, "lo") and parse_scoped_address("fe80::1%25lo") == (0xFE80 << 112 | 1, "25lo") and parse_scoped_address("::1") == (1, None)
+    assert scoped_host_text(1, "eth0") == "[::1%eth0]" and scoped_host_text(1) == "[::1]" and scoped_host_text(1, "25lo", brackets=False) == "::1%25lo"
+    assert split_hostinfo("[fe80::1%25lo]:7", uri_form=False) == (("ipv6", 0xFE80 << 112 | 1, "25lo"), 7) and split_hostinfo("[fe80::1%25lo]:7") == (("ipv6", 0xFE80 << 112 | 1, "lo"), 7)
+    assert zone_in_hostport_string("eth-0") and zone_in_hostport_string("\u00e4") and not zone_in_hostport_string("a%b") and not zone_in_hostport_string("a]") and not zone_in_hostport_string("a b") and not zone_in_hostport_string("")
+    assert zone_is_plain("eth0.1_x~-") and not zone_is_plain("a/b") and not zone_is_plain("")
+    assert bare_zone_literal("[fe80::1%lo]") == (0xFE80 << 112 | 1, "lo") and bare_zone_literal("[fe80::1%25lo]") is None and bare_zone_literal("[fe80::1%a%41]") is None and bare_zone_literal("[x%lo]") is None and bare_zone_literal("[::1]") is None
+    for bad in ["fe80::1%", "x%lo", "[::1%lo]", ""]:
+        try:
+            parse_scoped_address(bad)
+        except NotAUri:
+            pass
+        else:
+            raise AssertionError("accepted " + bad)
     assert decompose("coap://h%2Fx/").uri_host == "h/x"
     assert compose("coap", host_text("name", "h/x"), None, (), ()) == "coap://h%2Fx/"
     for u, why in [("/hello", "no-scheme"), ("//h/p", "no-scheme"), ("", "no-scheme"), ("coap:///p", "no-host"), ("coap:p", "no-host"), ("coap://:5683/", "no-host"), ("coap:", "no-host"), ("coap://h/#f", "fragment"), ("coap://h/#", "fragment"), ("coap://u@h/", "userinfo"), ("coap://@h/", "userinfo"), ("coap://u:p@h/", "userinfo"), ("coap://h:abc/", "port-non-numeric"), ("coap://[::1]:abc/", "port-non-numeric"), ("coap://h:65536/", "port-range"), ("coap://h/%ff", "non-utf8"), ("coap://h/?%C3%28", "non-utf8"), ("coap://h%ff/", "non-utf8"), ("http://h/", "foreign-scheme"), ("coap://h/%ED%A0%80", "non-utf8")]:
